@@ -272,6 +272,18 @@ def check(run):
                            failing_input={"variant": v, "call_index": len(small) - 1,
                                           "history_configs": [unhex(s["ini"]).decode("latin-1") if s["ini"] != "~" else None for s in small]})
             run.violation(sig, kind, detail + " [%s]" % tag, rep)
+    # ---- model-based histories: the composed model (System/Compose.v) predicts call k from the file in place at call k ALONE;
+    #      the file is rewritten between the calls of one process; both builds
+    nsys = 0
+    try:
+        from vlib import sysmodel
+        sysmodel.translate_all(run)
+        sexe = sysmodel.build_model(run)
+        for v in ("ts", "nts"):
+            n1, _ = sysmodel.whole_run_stream(run, libs[v], sexe, 8 if run.tier == "quick" else 120, 6, run.violation, tag="c11m-" + v, rewrite=True, sigprefix="model-hist:" + v)
+            nsys += n1
+    except CheckError as e:
+        run.notes.append("model-based history stream not run: %s" % str(e)[:300])
     if not ok:
         diag = coq_query(run, "Diag_C11",
                          "From Coq Require Import String List Bool.\nFrom Snoopy Require Import Lib.Skel Lib.ResFlow CfgLife.Model.\nFrom Gen Require Import Gen_CfgLife.\nOpen Scope string_scope.\n"
@@ -291,7 +303,7 @@ def check(run):
                 "exec entry and after return) with the same call made first in a fresh process; liballoc: no live library-allocated block at exec entry/after return, "
                 "no growth over periodic 30-call histories, no double free; distinct = distinct (build, configuration) pairs exercised",
         "samples": [{"variant": v, "configs": [unhex(s["ini"]).decode("latin-1")[:200] if s["ini"] != "~" else None for s in steps[:3]]} for (v, steps, tag, _, _) in results[:2]],
-        "distribution": {"histories": nhist, "calls_compared": ncmp, "fresh_process_references": refs.n, "options": info["options"], "record_fields": len(info["fields"]),
+        "distribution": {"histories": nhist, "calls_compared": ncmp, "fresh_process_references": refs.n, "model_predicted_history_calls": nsys, "options": info["options"], "record_fields": len(info["fields"]),
                          "config_kinds": sorted(set(l for (_, l, _) in labels))},
         "traces_validated_against_impl": ncmp,
     })
